@@ -51,6 +51,19 @@ type hTwo struct {
 	X *int `cbor:"10,keyasint,omitempty" json:"x,omitempty"`
 }
 
+// an embedded NAMED NON-STRUCT type carrying its own tags is an ordinary field for the plain codecs
+// (and so for the embedding-aware ones); hWithSlice embeds a named slice type the same way
+type HEpoch int64
+
+type HTags []string
+
+type hWithScalar struct {
+	HEpoch `cbor:"12,keyasint" json:"epoch"`
+	HTags  `cbor:"13,keyasint,omitempty" json:"tags,omitempty"`
+	HInner
+	X *int `cbor:"10,keyasint,omitempty" json:"x,omitempty"`
+}
+
 type hWithIface struct {
 	HIface
 	X *int `cbor:"10,keyasint" json:"x"`
@@ -107,6 +120,12 @@ func hValues() []interface{} {
 		}
 		out = append(out, &t)
 	}
+	ws := &hWithScalar{HEpoch: 1700000000, X: pi(5)}
+	ws.A = pi(1)
+	out = append(out, ws)
+	ws2 := &hWithScalar{HEpoch: 0, HTags: HTags{"a", "b"}}
+	ws2.A = pi(2)
+	out = append(out, ws2)
 	out = append(out, &hWithIface{HIface: HInner2{D: pu(9)}, X: pi(3)})
 	out = append(out, &hWithIface{HIface: &HInner2{D: pu(0), C: pb([]byte{})}, X: pi(3)})
 	return out
